@@ -41,7 +41,7 @@ TR = 'chainables.transform'
 
 
 def run(ctx: Ctx):
-  for r in (r1, r2, r3, r4, r5, r6, r9, r11, r12, r13):
+  for r in (r1, r2, r3, r4, r5, r6, r9, r11, r12, r13, r14):
     ctx.guard(r)
   from mlmverif.props import c09
   ctx.include('R-C12-10', 'error skipping configured on a data source survives a'
@@ -691,6 +691,69 @@ def _always_leaves(body) -> bool:
   return False
 
 
+def r14(ctx: Ctx):
+  rule = 'R-C12-14'
+  ctx.rule(rule, '"regardless of ... operator kind": in TreeFn._iterate EVERY path from'
+           ' entry to the return routes the inputs through the error-skipping map —'
+           ' a call of the name bound to `map_ignore_error if <ignore_error> else map`'
+           ' (or of map_ignore_error itself) — no shortcut (e.g. for the identity'
+           ' function of select) hands the input iterator on unwrapped: a skippable'
+           ' failure arriving from the inputs would escape the operator and abort the'
+           ' run although error skipping is on')
+  fi = ctx.repo.func(TF, 'TreeFn._iterate')
+  ps = fi.params()
+  flag = next((p_ for p_ in ps if 'ignore' in p_), None)
+  if flag is None:
+    raise AnalysisError(f'{rule}: TreeFn._iterate has no ignore_error parameter')
+  sel = set()
+  for x in walk_no_nested(fi.node):
+    if isinstance(x, ast.Assign) and len(x.targets) == 1 and isinstance(x.targets[0], ast.Name) and isinstance(
+        x.value, ast.IfExp):
+      v = x.value
+      names = {unparse(v.body).split('.')[-1], unparse(v.orelse).split('.')[-1]}
+      if names == {'map_ignore_error', 'map'} and flag in unparse(v.test):
+        # polarity: the skipping map is chosen when the flag is true
+        pos = unparse(v.body).split('.')[-1] == 'map_ignore_error'
+        negated = isinstance(v.test, ast.UnaryOp) and isinstance(v.test.op, ast.Not)
+        if pos != negated:
+          sel.add(x.targets[0].id)
+  g = cfgm.cfg_of(fi.node)
+
+  def routes(nd):
+    for x in cfgm.node_exprs(nd):
+      if isinstance(x, ast.Call) and (
+          (isinstance(x.func, ast.Name) and x.func.id in sel) or unparse(x.func).split('.')[-1] == 'map_ignore_error'):
+        return True
+    return False
+
+  if not any(routes(nd) for nd in g.nodes):
+    ctx.fail(rule, fi, 'TreeFn._iterate: inputs are mapped with the error-skipping map',
+             'TreeFn._iterate no longer selects map_ignore_error under its ignore_error flag', node=fi.node)
+  else:
+    def skipping_on(a, b, lab):
+      # paths on which the flag is known to be off owe nothing
+      if not cfgm.only_normal(a, b, lab):
+        return False
+      if a.kind == 'cond':
+        t, neg = a.ast, False
+        while isinstance(t, ast.UnaryOp) and isinstance(t.op, ast.Not):
+          t, neg = t.operand, not neg
+        if isinstance(t, ast.Name) and t.id == flag and lab == ('true' if neg else 'false'):
+          return False
+      return True
+
+    w = g.must_pass(g.entry, [g.exit_ret], routes, skipping_on)
+    if w is None:
+      ctx.ok(rule, fi, 'every path of _iterate passes the error-skipping map', fi.node)
+    else:
+      ctx.fail(rule, fi, 'TreeFn._iterate: every path routes the inputs through the error-skipping map',
+               'a path through _iterate returns without the error-skipping map ('
+               + ' -> '.join(x_.split(':', 2)[-1][:40] for x_ in w[-5:]) + '): for that operator kind a'
+               ' skippable failure arriving from the inputs escapes and aborts the run', node=fi.node,
+               witness=w[-10:])
+  ctx.floor(rule, 1)
+
+
 def r5(ctx: Ctx):
   rule = 'R-C12-5'
   ctx.rule(rule, 'causes: every `raise X(...)` lexically inside an `except ...'
@@ -746,6 +809,16 @@ from mlmverif.selfcheck import B, OK  # noqa: E402
 _F = 'chainables/tree_fns.py'
 _U = 'utils/iter_utils.py'
 VARIANTS = [
+    B('identity-fn-bypasses-skipping-map', 'chainables/tree_fns.py',
+      '    map_ = iter_utils.map_ignore_error if ignore_error else map\n    fn_outputs = map_(self._maybe_call_fn, fn_inputs)',
+      '    if self.fn is _identity_fn:\n      fn_outputs = fn_inputs\n    else:\n      map_ = iter_utils.map_ignore_error if ignore_error else map\n      fn_outputs = map_(self._maybe_call_fn, fn_inputs)',
+      'R-C12-14'),
+    B('skipping-map-polarity-inverted', 'chainables/tree_fns.py',
+      '    map_ = iter_utils.map_ignore_error if ignore_error else map',
+      '    map_ = map if ignore_error else iter_utils.map_ignore_error', 'R-C12-14'),
+    OK('skipping-map-selected-by-if', 'chainables/tree_fns.py',
+       '    map_ = iter_utils.map_ignore_error if ignore_error else map\n    fn_outputs = map_(self._maybe_call_fn, fn_inputs)',
+       '    if ignore_error:\n      fn_outputs = iter_utils.map_ignore_error(self._maybe_call_fn, fn_inputs)\n    else:\n      fn_outputs = map(self._maybe_call_fn, fn_inputs)'),
     B('revert-read-batch-before-caching', 'utils/iter_utils.py',
       '          batch = list(self.data[self.i : self.i + batch_size])\n          self._cache.extend(batch)',
       '          self._cache.extend(self.data[self.i : self.i + batch_size])', 'R-C12-13'),
